@@ -395,6 +395,40 @@ pub fn weak_corruptions(p: &[u8]) -> Vec<Vec<u8>> {
     out
 }
 
+/// Frames shaped like the neighbouring protocol on the same bus (IPMB): the first
+/// three bytes sum to zero (connection-header checksum), with the MCTP command
+/// code or not; an even or odd fourth byte; total length 8..=32; all-zero body
+/// whose last byte makes bytes[3..] sum to zero (data checksum), or the MCTP PEC
+/// instead.  DSP0237 asks MCTP to coexist with IPMB, so "IPMB filters" are a
+/// recurring place for mistakes.
+pub const IPMB_LIKE_N: u64 = 256 * 3 * 8 * 25 * 2;
+pub fn ipmb_like(i: u64, buf: &mut Vec<u8>) {
+    let mut ix = crate::engine::Ix(i);
+    let pec_mode = ix.take(2);
+    let len = 8 + ix.take(25) as usize;
+    let b3 = [0x20u8, 0x34, 0x46, 0xFE, 0x21, 0x35, 0x47, 0x00][ix.take(8) as usize];
+    let b1 = [0x0Fu8, 0x0E, 0x00][ix.take(3) as usize];
+    let b0 = ix.take(256) as u8;
+    buf.clear();
+    buf.push(b0);
+    buf.push(b1);
+    buf.push(0u8.wrapping_sub(b0.wrapping_add(b1)));
+    buf.push(b3);
+    buf.push(0x01);
+    buf.push(b0 >> 1);
+    buf.push(b3 >> 1);
+    buf.push(0xC8);
+    while buf.len() < len {
+        buf.push(0x00);
+    }
+    if pec_mode == 0 {
+        let s = buf[3..len - 1].iter().fold(0u8, |a, b| a.wrapping_add(*b));
+        buf[len - 1] = 0u8.wrapping_sub(s);
+    } else {
+        fix_pec(buf);
+    }
+}
+
 pub fn hexs(b: &[u8]) -> String {
     hex(b)
 }
